@@ -43,7 +43,20 @@ def shim_wasm():
     return m.encode()
 
 
-SAN = ['-fsanitize=address,undefined', '-fno-sanitize-recover=all', '-fno-omit-frame-pointer', '-g', '-O1']
+# nonnull-attribute is left to ASan, which reports the actual NULL read with its stack
+def build_translator():
+    """w2c2 from REPO's working tree.  Own cache name ('wasix-<sha>') so that concurrent runs of other checks, which
+    prune the shared 'plain-*' cache, cannot remove the binary while it is in use; retried because of that pruning."""
+    for attempt in range(3):
+        try:
+            return vcommon.build_w2c2('wasix')
+        except (RuntimeError, OSError) as e:
+            last = e
+            time.sleep(1 + attempt)
+    raise last
+
+
+SAN = ['-fsanitize=address,undefined', '-fno-sanitize=nonnull-attribute', '-fno-sanitize-recover=all', '-fno-omit-frame-pointer', '-g', '-O1']
 
 
 class Harness:
@@ -51,7 +64,7 @@ class Harness:
     def __init__(self, drivers, name, extra=()):
         self.dir = scratch('wx-' + name)
         self.name = name
-        rc, err = translate(shim_wasm(), self.dir, modname='shim')
+        rc, err = translate(shim_wasm(), self.dir, w2c2=build_translator(), modname='shim')
         if rc != 0:
             raise RuntimeError('cannot translate shim module: ' + err)
         inc = ['-I', os.path.join(REPO, 'w2c2'), '-I', os.path.join(REPO, 'wasi'), '-I', self.dir, '-I', WASIX]
@@ -154,9 +167,9 @@ def crash_class(r):
         return None
     text = '\n'.join(r['san'])
     kind = 'exit=%s/sig=%s' % (r['exit'], r['sig'])
-    m = re.search(r'ERROR: AddressSanitizer: ([\w-]+(?: [\w-]+)?)', text)
+    m = re.search(r'ERROR: AddressSanitizer: (?:attempting )?([\w-]+)', text)
     if m:
-        kind = 'asan:' + m.group(1).replace('attempting ', '').replace(' ', '-')
+        kind = 'asan:' + m.group(1)
     elif 'runtime error:' in text:
         kind = 'ubsan:' + re.search(r'runtime error: ([^\n]*)', text).group(1)[:60]
     elif 'HARNESS-ERROR' in text or 'Assertion' in text:
@@ -165,7 +178,7 @@ def crash_class(r):
         kind = 'timeout'
     # attribution: the first report stack must contain a frame of the implementation under test
     first = text.split('\n\n')[0] if text else ''
-    in_impl = bool(re.search(r'/wasi/wasi\.c:\d+', first)) or bool(re.search(r'/wasi/wasi\.c:\d+', text.split('located')[0]))
+    in_impl = bool(re.search(r'/wasi/wasi\.c:\d+', first))
     fn = re.search(r' in (\w+) [^\n]*/wasi/wasi\.c:(\d+)', text)
     where = '%s' % fn.group(1) if fn else '?'
     return kind, in_impl, where, text[-1800:]
